@@ -69,7 +69,7 @@ type Scheduler interface {
 // StdScheduler implements the [Scheduler] interface.
 type StdScheduler struct {
 	mtx sync.RWMutex
-	wg  sync.WaitGroup
+	wg  waitCounter
 
 	interrupt chan struct{}
 	cancel    context.CancelFunc
@@ -348,12 +348,51 @@ func (sched *StdScheduler) Start(ctx context.Context) {
 
 // Wait blocks until the scheduler shuts down.
 func (sched *StdScheduler) Wait(ctx context.Context) {
-	sig := make(chan struct{})
-	go func() { defer close(sig); sched.wg.Wait() }()
 	select {
 	case <-ctx.Done():
-	case <-sig:
+	case <-sched.wg.zero():
 	}
+}
+
+// waitCounter counts the goroutines of the scheduler. Unlike a sync.WaitGroup
+// it may be waited on while the scheduler is started again, and waiting does
+// not need a goroutine of its own.
+type waitCounter struct {
+	mtx  sync.Mutex
+	n    int
+	done chan struct{} // closed when n drops to zero
+}
+
+// Add adds delta, which may be negative, to the counter.
+func (w *waitCounter) Add(delta int) {
+	w.mtx.Lock()
+	defer w.mtx.Unlock()
+
+	if w.n == 0 {
+		w.done = make(chan struct{})
+	}
+	w.n += delta
+	if w.n == 0 {
+		close(w.done)
+	}
+}
+
+// Done decrements the counter by one.
+func (w *waitCounter) Done() {
+	w.Add(-1)
+}
+
+// zero returns a channel that is closed once the counter is zero.
+func (w *waitCounter) zero() <-chan struct{} {
+	w.mtx.Lock()
+	defer w.mtx.Unlock()
+
+	if w.n == 0 {
+		closed := make(chan struct{})
+		close(closed)
+		return closed
+	}
+	return w.done
 }
 
 // IsStarted determines whether the scheduler has been started.
